@@ -412,7 +412,9 @@ class IoWrite(OpSpec):
         fs.lineage_layout[path] = layout
         # ---- C09: read -> convert -> write
         pl = h.meta.get("pipeline")
-        if pl is not None and pl.get("snap") == digest(snapshot(g.kind, h.obj)):
+        # (a pipeline write op of a C09 session is judged even if an earlier WRITE changed the chart: those sessions contain
+        # no user edit of a converted chart, so the only thing that can have changed it is the library's own writer)
+        if pl is not None and (op.get("prop") == "C09" or pl.get("snap") == digest(snapshot(g.kind, h.obj))):
             from .pipeline import cmp_pipeline
 
             for m in cmp_pipeline(pl, op["game"], den, layout)[:3]:
